@@ -4,5 +4,7 @@ import obl_phonetic
 
 
 def run(c):
+    import clauses
+    c.only_clauses = clauses.OWN["C02"]
     obl_kani.run(c, ["k_suggestion_full_accessors", "k_suggestion_single_accessors"])
     obl_phonetic.obl_phonetic_glue(c, 2 if c.tier == "quick" else 3, budget_s=900)
